@@ -126,6 +126,9 @@ class ResolveSpec(Spec):
         bycase = {c["id"]: c for c in allcases}
         for cid, o in obs.items():
             case = bycase[cid]
+            if case.get("expect_loaded") and o["status"] == "refused":
+                res["oracle_failures"].append({"id": cid, "what": f"the store was refused ({o.get('error_kind') or str(o.get('error'))[:120]}) although {case['expect_loaded']}",
+                                               "finding": None, "case": gen.strip_struct(case)})
             if case.get("expect_refused") and o["status"] != "refused":
                 res["oracle_failures"].append({"id": cid, "what": f"the store was loaded ({o['status']}) although {case['expect_refused']}",
                                                "finding": None, "case": gen.strip_struct(case)})
@@ -163,6 +166,9 @@ class ResolveSpec(Spec):
                     if rep.kind == "success" or (rep.kind == "failvet" and ex["fails"] not in failing):
                         res["oracle_failures"].append({"id": cid, "what": f"{ex['fails']} is not reported as failing (verdict {rep.kind}) although {ex['why']}",
                                                        "finding": None, "case": gen.strip_struct(case)})
+                if ex.get("passes") and rep.kind != "success":
+                    res["oracle_failures"].append({"id": cid, "what": f"the verdict is {rep.kind} although {ex['why']}",
+                                                   "finding": None, "case": gen.strip_struct(case)})
                 if ex.get("conflict"):
                     hit = {nodes_[i].split(":")[0] for i in rep.conflicts()} if rep.kind == "violation" else set()
                     if ex["conflict"] not in hit:
@@ -1220,6 +1226,26 @@ class C07(ImportSpec):
                                                "case": gen.strip_struct(c)})
         res["cases"] += [c["id"] for c in cases]
         res["stats"]["locked_exclude"] = {f"{a}/{b}": n_ for (a, b), n_ in dist.items()}
+        # "unmapped peer criteria contribute nothing" at the level of the verdict: a peer's violation naming only such criteria
+        # conflicts with nothing (small planted cases whose verdict follows from the property text)
+        xs = gen.gen_expect_cases(None, "unmapped-violation") + gen.gen_expect_cases(None, "builtin-mapped-to-nothing")
+        xobs = vetlib.run_harness([gen.strip_struct(c) for c in xs], os.path.join(work, "impl-expect"))
+        for c in xs:
+            o = xobs.get(c["id"]) or {}
+            ex = c["expect"]
+            what = None
+            if o.get("status") != "ok":
+                what = f"no verdict ({o.get('status')}: {str(o.get('panic') or o.get('error'))[:120]}) although {ex['why']}"
+            else:
+                r = O.Report(o["obs"])
+                nodes_ = o["tables"]["nodes"]
+                if ex.get("passes") and r.kind != "success":
+                    what = f"the verdict is {r.kind} although {ex['why']}"
+                if ex.get("fails") and (r.kind == "success" or (r.kind == "failvet" and ex["fails"] not in {nodes_[i].split(":")[0] for i in r.failures()})):
+                    what = f"{ex['fails']} is not reported as failing (verdict {r.kind}) although {ex['why']}"
+            if what:
+                res["oracle_failures"].append({"id": c["id"], "what": what, "finding": None, "case": gen.strip_struct(c)})
+        res["cases"] += [c["id"] for c in xs]
         return res
 
     def gen_cases(self, rng, n):
@@ -1312,7 +1338,7 @@ class C08(SimpleSpec):
     assumptions = ["mock crates.io"]
 
     def model_modules_paths(self):
-        return ["ShowAuditAs"]
+        return ["ShowAuditAs", "ShowUpdate"]
 
     def gen_cases(self, rng, n):
         r2 = __import__("random").Random(rng.random())
@@ -1407,6 +1433,8 @@ class C08(SimpleSpec):
                 rc = json.load(open(replay)).get("case") or {}
             except Exception:
                 rc = {}
+            if rc.get("kind") == "history":
+                return _C08Hist().run(rng, tier, work, model_ok, ncases, replay)
             if rc.get("kind") != "resolve":
                 return super().run(rng, tier, work, model_ok, ncases, replay)
             rc.setdefault("id", "replay")
@@ -1443,6 +1471,14 @@ class C08(SimpleSpec):
             if what:
                 res["oracle_failures"].append({"id": c["id"], "what": what, "finding": None, "case": gen.strip_struct(c) | {"unpublished_verdict": uv}})
         res["stats"]["unpublished_verdict_cases"] = tags
+        if not replay:
+            # stage 3: "... a choice that is recorded so that --locked runs keep passing": the real check on histories
+            hs = _C08Hist()
+            r3 = hs.run(__import__("random").Random(rng.random()), tier, os.path.join(work, "hist"), model_ok, ncases=(2 if tier == "quick" else 40))
+            res["cases"] += r3["cases"]
+            res["mismatches"] += r3["mismatches"]
+            res["oracle_failures"] += r3["oracle_failures"]
+            res["stats"]["recorded_choice_histories"] = r3.get("stats", {})
         return res
 
 
@@ -1971,9 +2007,12 @@ class C15(SimpleSpec):
         out = []
         for i in range(n):
             c = gen.gen_validate_case(rng, f"v{i}")
-            if i % 3 == 1 and not c.get("faults"):
+            if i % 6 == 1 and not c.get("faults"):
                 # an implication cycle first reached from a criterion outside it (local or peer table)
                 c = gen.boost_cycle_behind_entry(rng, c)
+            elif i % 6 == 4 and not c.get("faults"):
+                # an EXPIRED own wildcard audit naming an undefined criterion
+                c = gen.boost_expired_wildcard_dangling(rng, c)
             elif i % 3 == 2 and not c.get("faults"):
                 # a peer entry mixing known and unknown criteria (unlocked): stripped, not crashed on, not counted
                 c = gen.boost_peer_mixed_unknown(rng, c)
@@ -2581,6 +2620,9 @@ class HistorySpec(Spec):
                 [gen.scenario_certify_collapse(f"cc{k}", k) for k in range(3)] +
                 [gen.scenario_unmapped_before_needed(f"um{k}", k) for k in range(2)] +
                 [gen.scenario_old_store_version(f"ov{k}x", k) for k in range(2)] +
+                [gen.scenario_publisher_names_disagree(f"pn{k}", k) for k in range(2)] +
+                [gen.scenario_unpublished_moved_on(f"mo{k}", k) for k in range(2)] +
+                [gen.scenario_trusted_after_foreign_publisher(f"tf{k}", k) for k in range(2)] +
                 [gen.scenario_shared_exemption_two_needs(f"sx{k}", k) for k in range(2)] +
                 [gen.scenario_lapsed_peer_wildcard(f"lw{k}", k) for k in range(2)] +
                 [gen.scenario_overlap_redundant_exemption(f"ov{k}", k) for k in range(3)] +
@@ -2634,6 +2676,22 @@ class _C17Hist(HistorySpec):
 
     def step_nontrivial(self, st):
         return st.cls == "certify" and "--criteria" not in st.args
+
+
+class _C08Hist(HistorySpec):
+    """the history stage of the C08 check: the choice made for an unpublished version is RECORDED, so that `--locked` keeps
+    passing after an unlocked success"""
+    pid = "C08"
+    oracle_fn = staticmethod(hist.oracle_c09)
+
+    def gen_cases(self, rng, n):
+        return ([gen.scenario_stale_unpublished(f"su{k}", k) for k in range(2)] +
+                [gen.scenario_unpublished_moved_on(f"mo{k}", k) for k in range(2)] +
+                [gen.scenario_unpublished_vs_peer(f"sc{k}", k) for k in range(3)] +
+                [gen.gen_history(rng, f"h{i}") for i in range(n)])
+
+    def step_nontrivial(self, st):
+        return st.cls == "check" and st.outcome == "ok"
 
 
 class _C12Hist(HistorySpec):
